@@ -320,6 +320,7 @@ def run(prop, tier, rules, meta, repo="/repo"):
             "exhaustive": True,
             "extract_s": round(ctx.extract_s, 2),
             "selftest": selftest,
+            "notes": list(getattr(rep, "notes", []))[:40],
         },
         "assumptions": meta.get("assumptions", []),
         "wall_s": round(wall, 2),
